@@ -32,6 +32,10 @@ def special_form(ex, name, e, st):
         cx = ex.spec_cx(st)
         b = ex.S.eval_bool(e.args[0], cx)
         return [(st.assume(*(cx.facts + [b])), mk_none())]
+    if name == 'super' and not e.args and 'self' in st.locals:
+        qn = ex.frame.fn.__qualname__.split('.')
+        cls = repo.resolve(ex.frame.fn.__module__ + '.' + '.'.join(qn[:-1]))
+        return [(st, SV(TFunc(), (), py=Static(('super', cls), recv=st.locals['self'])))]
     if name == 'hasattr' and 'hasattr' not in st.locals:
         out = []
         for s, v in ex.ev(e.args[0], st):
@@ -62,6 +66,13 @@ def special_form(ex, name, e, st):
         for s, vals in ex.ev_many(e.args, st):
             s2 = s.copy()
             trace.emit(ex.W, s2.heap, vals[0], vals[1], vals[2] if len(vals) > 2 else 0, vals[3] if len(vals) > 3 else None)
+            out.append((s2, mk_none()))
+        return out
+    if name == 'emit_kind':
+        out = []
+        for s, vals in ex.ev_many(e.args, st):
+            s2 = s.copy()
+            trace.emit_kind(ex.W, s2.heap, vals[0], vals[1] if len(vals) > 1 else mk_none())
             out.append((s2, mk_none()))
         return out
     if name == 'retag_last':
@@ -116,6 +127,8 @@ def special_form(ex, name, e, st):
 
 # ------------------------------------------------------------------ builtin functions (arguments already evaluated)
 def call_builtin(ex, obj, args, kwargs, st):
+    if isinstance(obj, types.MethodType) and getattr(obj.__func__, '__module__', '') == 'logging':
+        return [(st, mk_none())]       # A-LOG
     if obj is len:
         return [(st, ops.op_len(st.heap, args[0]))]
     if obj is ord:
@@ -146,8 +159,10 @@ def call_builtin(ex, obj, args, kwargs, st):
         if isinstance(a.ty, TStr):
             # CPython: int(s) raises ValueError unless s is an integer literal (which texts are literals is
             # under-specified beyond: str(n) is one and denotes n)
-            s = ex.need(st, (z3.Not(is_int_text(a.term)), ValueError))
-            return [(s, mk_int(int_of_str(a.term)))] if s is not None else []
+            it = ex.S.uf(contracts.SPECFNS['int_text'])(a.term)
+            iv = ex.S.uf(contracts.SPECFNS['int_value'])(a.term)
+            s = ex.need(st.assume(it == is_int_text(a.term), z3.Implies(it, iv == int_of_str(a.term))), (z3.Not(it), ValueError))
+            return [(s, mk_int(iv))] if s is not None else []
         if isinstance(a.ty, TReal):
             x = a.term
             return [(st, mk_int(z3.If(x >= 0, z3.ToInt(x), -z3.ToInt(-x))))]
@@ -333,7 +348,19 @@ def str_join(ex, sep, arg, st):
 
 
 def str_split(ex, recv, name, args, st):
-    raise Unsupported('str.%s' % name)
+    """s.split(sep): a new list; its length and parts are named by the opaque spec functions split_count /
+    split_part (CPython: at least one part; no separator inside a part is NOT assumed)."""
+    if name != 'split' or len(args) != 1:
+        raise Unsupported('str.%s with these arguments' % name)
+    cnt = ex.S.uf(contracts.SPECFNS['split_count'])(recv.term, args[0].term)
+    part = ex.S.uf(contracts.SPECFNS['split_part'])
+    s2, r = ex.new_ref(st, 1)
+    k = z3.Int(fresh_name('k'))
+    arr = z3.Const(fresh_name('parts'), z3.ArraySort(I, Str))
+    s2 = s2.assume(cnt >= 1, z3.ForAll([k], z3.Select(arr, k) == part(recv.term, args[0].term, k), patterns=[z3.Select(arr, k)]))
+    s2.heap.list_set_len(r, cnt)
+    s2.heap.list_set_arr(STR, r, [arr])
+    return [(s2, SV(TList(STR), [r]))]
 
 
 def iter_descriptor(ex, v, st):
@@ -367,9 +394,21 @@ def havoc_target(ex, m, cx, st, pre_heap):
         st.heap.set(k, [na])
         return
     e = ast.parse(m, mode='eval').body
+    if isinstance(e, ast.Call) and isinstance(e.func, ast.Name) and e.func.id == 'when':
+        # when(cond, target): the target may change only if cond held in the pre-state
+        cond = ex.S.eval_bool(e.args[0], cx)
+        before = st.heap.copy()
+        havoc_target(ex, ast.unparse(e.args[1]), cx, st, pre_heap)
+        for key in st.heap.keys():
+            if key[0] == 'alloc':
+                continue
+            a0, a1 = before.get(key), st.heap.get(key)
+            if any(not x.eq(y) for x, y in zip(a0, a1)):
+                st.heap.set(key, [z3.If(cond, y, x) for x, y in zip(a0, a1)])
+        return
     if isinstance(e, ast.Call) and isinstance(e.func, ast.Name):
         kind = e.func.id
-        if kind == 'global':
+        if kind == 'cell':
             name = ast.unparse(e.args[0])
             ty = ex.W.parse_type(contracts.GLOBALS[name])
             st.heap.write_global(name, ty, fresh(ty, 'g'))
